@@ -48,8 +48,8 @@ pub fn gen(rng: &mut StdRng, ops: u32) -> Tree {
             }
             6 => Tree::Var(["X", "X", "QN", "QP"][rng.gen_range(0..4)].to_string()),
             7 => Tree::Var(["U", "U", "QN", "QM"][rng.gen_range(0..4)].to_string()),
-            8 => Tree::Str(["", "A", "B"][rng.gen_range(0..3)].to_string()),
-            _ => Tree::Var(["S$", "U$"][rng.gen_range(0..2)].to_string()),
+            8 => Tree::Str(["", "A", "B", "5"][rng.gen_range(0..4)].to_string()),
+            _ => Tree::Var(["S$", "U$", "R5$"][rng.gen_range(0..3)].to_string()),
         };
     }
     match rng.gen_range(0..10) {
@@ -98,7 +98,7 @@ pub fn tree_json(t: &Tree) -> J {
 
 fn observe(expr: &str) -> J {
     let mut s = Sess::new(false, false);
-    for l in ["X = 2.5", "S$ = \"B\"", "QN = -8 ^ .5", "QP = 0 ^ -1", "QM = -QP"] {
+    for l in ["X = 2.5", "S$ = \"B\"", "QN = -8 ^ .5", "QP = 0 ^ -1", "QM = -QP", "1 DATA 5", "READ R5$"] {
         s.apply(&call_submit(l));
     }
     let ev = s.apply(&call_submit(&format!("PRINT {}", expr)));
@@ -156,6 +156,41 @@ pub fn literals(seed: u64, n: usize, rep: &mut crate::report::Report) {
                     json!({"expr": expr, "expected_text": expect, "observed_text": text, "observed_error": o["err"]}));
                 break;
             }
+        }
+    }
+}
+
+/// FOR / NEXT with bounds and steps outside the exact domain (C03).  The specification's rule
+/// (Abasic.tla ExecNext: the variable becomes `current + step`; the loop goes round again iff that
+/// is `<= limit` for a step that is not negative, `>= limit` otherwise; the body runs at least once)
+/// is evaluated here in IEEE doubles -- the model cannot, 0.6 is not a dyadic -- and compared with
+/// what the interpreter prints.
+pub fn for_steps(seed: u64, n: usize, rep: &mut crate::report::Report) {
+    let mut rng = StdRng::seed_from_u64(seed ^ 0xF0A5);
+    let vals = ["0", "1", "2", "3", "4", "5", "10", "0.1", "0.3", "0.7", "1.1", "2.5", "-1", "-2.2", "100", "0.9", "3.3"];
+    let steps = ["0.1", "0.2", "0.3", "0.4", "0.6", "0.7", "0.9", "1.1", "1.3", "2.3", "-0.1", "-0.3", "-0.4", "-0.7", "-1.1", "0.05", "0.15", "-0.15", "0.35", "1", "-1", "0.5", "3"];
+    for _ in 0..n {
+        let (a, b, st) = (vals[rng.gen_range(0..vals.len())], vals[rng.gen_range(0..vals.len())], steps[rng.gen_range(0..steps.len())]);
+        let (fa, fb, fs): (f64, f64, f64) = (a.parse().unwrap(), b.parse().unwrap(), st.parse().unwrap());
+        // reference
+        let mut expect = String::new();
+        let mut x = fa;
+        let mut count = 0;
+        loop {
+            expect.push_str(&format!("{}\n", x));
+            x += fs;
+            count += 1;
+            let cont = if fs >= 0.0 { x <= fb } else { x >= fb };
+            if !cont || count > 400 { break; }
+        }
+        if count > 400 { continue; }
+        expect.push_str(&format!("E{}\n", x));
+        rep.count("loops");
+        let lines = vec![format!("10 FOR X={} TO {} STEP {}:PRINT X:NEXT X", a, b, st), "20 PRINT \"E\";X".to_string()];
+        let o = crate::c06::run_text_full(&lines, &["1"], 1, 3000);
+        if o.panicked || !o.ok || o.printed != expect {
+            rep.violation("C03", "for_loop_differs_from_reference", json!({"step": st}),
+                json!({"program": lines, "expected": expect, "observed": o.printed, "error": o.kind, "panicked": o.panicked}));
         }
     }
 }
